@@ -117,7 +117,7 @@ CHECKS["C08"] = {
   "note": TB + "walker scope is a parameter (C09); variant map is a parameter taken from the real generate_variant_map per case (C18); "
           "coercion enters the general theorems through the contract CoerceSafe (result is a usable file name), checked differentially "
           "and by kernel-evaluated instances; ASCII names where the term occurs; case-sensitive filesystem only; the composition "
-          "theorem is for one search root, two disjoint roots are covered differentially.",
+          "theorem holds for any list of search roots (nested and repeated included; no root with a `.git` component; without `--rename-root`).",
 }
 CHECKS["C12"] = {
   "text": "Theorems over ALL schedules (induction over the schedule via an inductive invariant, any number N of processes): in the "
@@ -284,5 +284,77 @@ CHECKS["C16"] = {
           "abstract in the model; clap's own exits (2 on usage errors) are observed, not modelled.",
 }
 
+CHECKS["C06"] = {
+  "text": "Theorems over all word lists, all neutral delimiter strings and all style-option sets about a Lean model of the one-line "
+          "pipeline (build_styles_list, the scanner's VariantMap and its get, leftmost-first alternation over the keys ordered as "
+          "build_pattern orders them, is_boundary, the replacement decision of generate_hunks: map entry | ambiguity branch | coercion | "
+          "first-letter fix-up, edit application): an occurrence d1 + render(st, search words) + d2 of a term of two or more words in ANY of "
+          "the twelve boundary-visible styles, when st is enabled, is rewritten to d1 + render(st, replacement words) + d2 "
+          "(same_style_partial, composed from: no key starts inside a delimiter, the alternation picks exactly the occurrence, the boundary "
+          "test holds, the key is unambiguous by the generated Style::constraints table for every style of V12 (unambiguous_styles_all), "
+          "the immediate identifier context is the match so coercion returns None, the fix-up is a no-op for same-style pairs), under a "
+          "decidable guard (non-empty style list, exact pass not skipped, plural variants off); Sentence-case occurrences are rewritten in "
+          "Sentence case (sentence_rewritten_in_sentence_case; the pre-70c1048 shared Title/Sentence row is kept as a before-fix theorem on "
+          "the explicitly old row); a line in which no key occurs is left untouched (disabled styles); for ambiguous occurrences the "
+          "resolver's choice is a member of filter_compatible_styles(match) whatever the context heuristics answer, and EVERY compatible "
+          "style preserves the first-letter case and all-caps-ness of the match (finite style x constraint-class check against the "
+          "generated table, lifted to all texts). The full-strength statement is refuted by one kernel-evaluated witness per listed finding. "
+          "The model is run against the real plan_operation (real build_styles_list) + apply_plan on every generated one-line file; an "
+          "independent reference renderer judges 12 styles x 11 delimiter contexts x 30 option sets x term/input-style combinations "
+          "exhaustively, the CLI rename path on a sample.",
+  "design_ref": "DESIGN.md section 4, C06",
+  "technique": "Lean 4 proof (table-driven profile argument over the regenerated Style::constraints table + matcher / map / boundary lemmas "
+               "composed into the one-line theorem) + kernel-evaluated witnesses + differential correspondence (rewriteline, filtercompat, "
+               "resolve, stylelist) + independent reference-renderer oracle (in-process and CLI)",
+  "note": TB + "apply_coercion beyond its first exit (context = match), the resolver's language/file/cross-file heuristics and the compound "
+          "pass are parameters of the model with explicit contracts (any generated line on which they act shows up as a "
+          "model/implementation difference); the pluralizer crate's answers are fed to the model as data and the composed theorem is "
+          "stated for --no-plural-variants; 'no enabled rendering occurs inside an occurrence in a disabled style' is a decidable "
+          "hypothesis of disabled_untouched exercised by the oracle; ASCII only; a single-line .txt file (no language heuristic, fewer "
+          "than 50 identifiers); two behavioural switches of the model (all-excluded selection -> empty list, single-word skip uses the "
+          "tokenizer) are regenerated from the source so that the proposed repairs seeded/_fixes/c06_*.diff are followed automatically.",
+}
+
+CHECKS["C13"] = {
+  "text": "Theorems over the process-level model of main(): for ANY set of signal delivery points (any positions, any repetition, "
+          "SIGINT or SIGTERM) a command without guarded confirmation prompt performs exactly the effects of its signal-free run, no "
+          "handler exits, and the exit status is 130 iff a handler ran and the command succeeded (a command that fails by itself "
+          "reports its own status); an exit during rename's confirmation prompt has performed only the pre-prompt steps and then "
+          "released the held locks; the full property (C13_full_holds) is proved for every command of the existing shapes. What the "
+          "handlers do, where the flag is tested, the exit code and the lock release are regenerated from main.rs/interrupt.rs/lock.rs "
+          "on every run and pinned by named theorems. The real binary is run with SIGINT/SIGTERM (once and three times) raised "
+          "immediately before each mutating call of rename, apply, undo, redo and replace on a scenario family, with an independent "
+          "oracle (tree in {before, complete}, history entry iff complete, lock released, status), rename's and replace's prompts "
+          "through a pty, and a self-failing command plus signal. The three behaviours repaired by d01db83 / 279b830 are violations "
+          "if they return.",
+  "design_ref": "DESIGN.md section 4, C13",
+  "technique": "Lean 4 proof (induction over runs = programs with interleaved signal events) + generated handler facts + "
+               "signal injection before every mutating call (shim) + pty + trace/model correspondence",
+  "note": TB + "signals are raised inside the shim by kill(getpid()) on the calling thread: delivery to other threads, EINTR inside "
+          "std and the async-signal-unsafe eprintln! in the SIGTERM handler are not explored; the SIGINT handler body runs on "
+          "ctrlc's helper thread, so a run that ends before that thread is scheduled exits 0 with the complete result (accepted as "
+          "'already finished'); SIGTERM at rename's prompt and either signal at replace's unguarded prompt are honoured only once "
+          "the prompt is answered (stated as theorems, exercised through the pty); the world of the model is the sequence of traced "
+          "calls, the content of the tree is C02's subject; what a command that fails by itself leaves behind is C04's.",
+}
+CHECKS["C14"] = {
+  "text": "Theorems: for EVERY permutation of the scanned file list the sorted match list of the plan is the same list (insertion "
+          "sort on a total preorder + uniqueness of the key (file, line, byte_offset)), and the stats / matches_by_variant are "
+          "permutation invariant; the effect programs of plan / search / --dry-run, generated from the dry_run gates extracted "
+          "from the source, leave every user path unchanged, write only permitted paths (plan file, transient lock and probe "
+          "directory, one-time ignore-file line) and every dry run of every command (plan, search, rename, replace) leaves the whole "
+          "tree identical (readonly_full, C14_full_holds). On the real binary every run is traced by the shim: written paths are "
+          "checked against the permitted set, the whole tree is snapshotted before/after, and plan JSON and the "
+          "table/diff/matches/summary previews are compared across RAYON_NUM_THREADS 1..16 and repeats on generated trees of 1..40 "
+          "entries. The lock / .renamify write of rename --dry-run repaired by 055e350 is a violation if it returns.",
+  "design_ref": "DESIGN.md section 4, C14",
+  "technique": "Lean 4 proof (permutation invariance of sorting; frame reasoning over effect lists) + generated gate/shape tables + "
+               "written-path log and snapshots under the shim + cross-thread-count differential",
+  "note": TB + "rayon's order-preserving collect and the stability of readdir order are library/OS contracts (the sort key and the "
+          "ordered collect are pinned syntactically by Gen/ScanShape); PathBuf ordering being a total order and the key being "
+          "unique per hunk are hypotheses of order_independent (the latter is C03's sort_key_unique); git subprocesses of auto-init "
+          "are not traced; only the cwd-rooted invocation is explored (no multiple roots).",
+}
+
 _W = "check built and passing before the latest repo fix commits; temporarily withdrawn while its Lean model is updated to the repaired code"
-PENDING.update({"C08": _W, "C12": _W})
+PENDING.update({"C12": _W, "C04": _W, "C17": _W, "C19": _W})
